@@ -112,12 +112,13 @@ Quiesced ==
            tsOdd == {u \in mine : sub[u].mode = "T" /\ u \notin seen /\ u \in emitted}
            lostProbe == {u \in probes \cap mine : u \notin seen /\ (sub[u].mode # "T" \/ u \in emitted)}
        IN bad' = bad
-            \cup (IF alive /\ ~Cur.reached THEN Flag("C02", "not-quiescent-within-horizon") ELSE {})
+            \* a run cut short by the harness's trace budget has not reached the horizon and is not judged for quiescence
+            \cup (IF alive /\ ~Cur.reached /\ ~Cur.cut THEN Flag("C02", "not-quiescent-within-horizon") ELSE {})
             \cup (IF alive /\ Cur.reached /\ undeliveredR # {} THEN Flag("C02", "reliable-undelivered-at-quiescence") ELSE {})
             \cup (IF alive /\ Cur.reached /\ (Cur.pending \/ Cur.bufsize # 0) THEN Flag("C02", "pending-or-buffer-nonzero-at-quiescence") ELSE {})
             \cup (IF alive /\ ideal /\ Cur.reached /\ missingIdeal # {} THEN Flag("C05", "packet-missing-on-ideal-network") ELSE {})
             \cup (IF alive /\ ideal /\ Cur.reached /\ tsOdd # {} THEN Flag("C05", "timesensitive-sent-but-not-delivered-on-ideal-network") ELSE {})
-            \cup (IF alive /\ lostProbe # {} THEN Flag("C11", "probe-not-delivered") ELSE {})
+            \cup (IF alive /\ ~Cur.cut /\ lostProbe # {} THEN Flag("C11", "probe-not-delivered") ELSE {})
     /\ UNCHANGED <<sub, seen, lastOnCh, lastGlobal, relWait, ideal, probes, emitted, alive>>
 
 ReasmEnd ==     \* end of a reassembly run: every fragment of every (Reliable) packet was handed over
